@@ -598,8 +598,10 @@ class ProdParser:
                 else:
                     # print '\t1', debug, 'PROD', prod
 
-                    # may stop next time, once set stays
-                    stopIfNoMoreMatch = prod.stopIfNoMoreMatch or stopIfNoMoreMatch
+                    # may stop next time if the production just matched allows
+                    # it (not after e.g. "and" of a media query, which must be
+                    # followed by an expression)
+                    stopIfNoMoreMatch = prod.stopIfNoMoreMatch
 
                     # process prod
                     if prod.toSeq and not prod.stopAndKeep:
